@@ -456,8 +456,8 @@ impl Check for C13 {
             real: &["h3 client/server builders, Config -> SETTINGS conversion and encoding, control stream setup", "SETTINGS decoding, validation and application (frame::Settings::decode, config::Settings::from, shared state)"],
             stub: &["QUIC transport (SimQuic)", "executor (simexec)", "peer (script, reference SETTINGS printer/parser)"],
             assumptions: &["a configured value that a varint cannot carry may be sent as 2^62-1 or refused by build() with an error, but must not panic", "a repeated unknown identifier may be ignored or rejected with H3_SETTINGS_ERROR"],
-            quick_runs: 100_000,
-            thorough_runs: 3_000_000,
+            quick_runs: 2_000_000,
+            thorough_runs: 80_000_000,
         }
     }
     fn run(&self, ctx: &RunCtx) -> RunOut {
